@@ -97,6 +97,10 @@ def eval_case(ctx, Q, opname, fn, mode, a, b, third=None):
         got = outcome(fn, a, Q(b, 'kg'), *extra)
     elif mode == 'QQ':
         got = outcome(fn, Q(a, 'kg'), Q(b, 'kg'), *extra)
+    elif mode == 'QQ-right-unitless':
+        got = outcome(fn, Q(a, 'kg'), Q(b, None), *extra)
+    elif mode == 'QQ-left-unitless':
+        got = outcome(fn, Q(a, None), Q(b, '%'), *extra)
     else:
         got = outcome(fn, Q(a, 'kg'), Q(b, '%'), *extra)
     ctx.case(opname, mode, repr(a), repr(b), repr(third))
@@ -120,7 +124,7 @@ def run_shard(spec, ctx):
                     if too_big(name, a, b):
                         ctx.count('skipped (bare evaluation too large)')
                         continue
-                    for mode in ('QN', 'NQ', 'QQ', 'QQdiff'):
+                    for mode in ('QN', 'NQ', 'QQ', 'QQdiff', 'QQ-right-unitless', 'QQ-left-unitless'):
                         eval_case(ctx, Q, name, fn, mode, a, b)
         # 3-argument pow with a plain modulus (reflected forms do not exist for 3-arg pow)
         for a in CAT:
@@ -140,6 +144,17 @@ def run_shard(spec, ctx):
                 for b in CAT + extra:
                     for mode in ('QN', 'NQ', 'QQ'):
                         eval_case(ctx, Q, name, fn, mode, a, b)
+                    # a Quantity without unit against one with a unit: the units differ -> TypeError, both ways
+                    for label, qa, qb in (('QQ-right-unitless', Q(a, 'kg'), Q(b, None)), ('QQ-left-unitless', Q(a, None), Q(b, 'kg'))):
+                        g2 = outcome(fn, qa, qb)
+                        ctx.case(name, label, repr(a), repr(b))
+                        ctx.count('unit-mismatch comparisons')
+                        if g2 != ('raise', 'TypeError'):
+                            _viol(ctx, name, label, a, b, ('raise', 'TypeError'), g2)
+                    # two unitless quantities compare as their values
+                    g3 = outcome(fn, Q(a, None), Q(b, None))
+                    if g3 != outcome(fn, a, b):
+                        _viol(ctx, name, 'QQ-both-unitless', a, b, outcome(fn, a, b), g3)
                     # different units: TypeError, always
                     got = outcome(fn, Q(a, 'kg'), Q(b, 'm'))
                     ctx.case(name, 'QQdiff', repr(a), repr(b))
